@@ -452,8 +452,9 @@ def run(ck):
     # (1) ALL sequences over the core alphabet up to length 4 (quick) / 5 (thorough), role x failByDrop x echo
     deep_len = 4 if quick else 5
     deep_cfgs = [c for c in roles_flags if not c["echo"]]
-    deep = [dict(cfg=cfg, events=evs) for cfg in deep_cfgs for evs in seqs(CORE, deep_len, [["hs"]])]
-    deep += [dict(cfg=cfg, events=evs) for cfg in roles_flags if cfg["echo"] for evs in seqs(CORE, deep_len - 1, [["hs"]])]
+    deepest = [c for c in deep_cfgs if not c["failByDrop"]] if quick else deep_cfgs      # quick: the closing-handshake policy
+    deep = [dict(cfg=cfg, events=evs) for cfg in deepest for evs in seqs(CORE, deep_len, [["hs"]])]
+    deep += [dict(cfg=cfg, events=evs) for cfg in roles_flags if cfg not in deepest for evs in seqs(CORE, deep_len - 1, [["hs"]])]
     # (2) the timeout grid {0,1,2} s x {0,1,2} s on all core sequences up to length 3 (quick) / 4
     gridded = [dict(cfg=cfg, events=evs) for cfg in grid for evs in seqs(CORE, 2 if quick else 3, [["hs"]])]
     gridded += [dict(cfg=cfg, events=evs) for cfg in (grid[::5] if quick else grid[::3]) for evs in seqs(CORE, 3 if quick else 4, [["hs"]])]
@@ -487,7 +488,7 @@ def run(ck):
            f"from CONNECTING: {len(conn)}, random (len<= {maxlen}): {len(randoms)}")
     ck.exhaustive = False
     # model comparison (Coq) on a budgeted, deterministic sample of every family; everything on the independent oracle
-    budget = 1400 if quick else 6000            # per framework
+    budget = 1200 if quick else 6000            # per framework
     fam = [deep, gridded, full, conn, randoms]
     sample = list(corpus)
     for f in fam:
